@@ -118,7 +118,7 @@ def run(m, chk):
     from .extra import end_exact
 
     nee = end_exact(r, chk, [FP])
-    chk.floor("END-EXACT", "maps of possibly closed reference nodes onto an interval", nee, 1)
+    chk.floor("END-EXACT", "maps of reference nodes onto an interval examined", nee, 1)
     from .extra import no_reorder
 
     no_reorder(r, chk, HF, "nodes")
